@@ -31,7 +31,7 @@ def gen_1d(rng, S, spline):
         xs = gen.axis_q(rng, n, rng.choice(["unit", "uniform", "geometric", "random", "dyadic", "mesh64", "evenish"]))
         flat = gen.vals_q(rng, gen.shape_size(shape), rng.choice(["int", "dyadic", "rational"]))
     else:
-        xs = gen.axis_f(rng, n, rng.choice(["unit", "uniform", "geometric", "random", "evenish"]))
+        xs = gen.axis_f(rng, n, rng.choice(["unit", "uniform", "geometric", "random", "evenish", "even"]))
         flat = [rng.uniform(-5, 5) for _ in range(gen.shape_size(shape))]
     return shape, xs, flat
 
